@@ -92,8 +92,9 @@ def convert(path, idx, engines=False):
         return None, "registered ranges (their bytes are not captured)"
     if end["truncated"]:
         return None, "more than 20000 steps"
-    if any(e["e"] == "helper" and e["memchg"] for e in body):
-        return None, "a helper wrote memory (helpers' memory effects are not specified)"
+    if any(e["e"] == "helper" and e["memchg"] and not (k + 1 < len(body) and body[k + 1]["e"] == "memafter")
+           for k, e in enumerate(body)):
+        return None, "a helper wrote memory and the recording has no image of it"
     if len(b["prog"]) % 8 != 0 or not b["prog"]:
         return None, "program is not a whole number of slots"
     vm = "mbuff" if b["mbuff"] else ("raw" if b["mem"] else "nodata")
@@ -111,11 +112,20 @@ def convert(path, idx, engines=False):
                     "imbuf": regs[1]})
     else:
         out.append({"e": "start", "case": case, "regs": [word_json(0)] * 11, "stack": word_json(0), "imbuf": word_json(0), "norun": True})
-    for e in body:
+    stack_base = word_json((word(steps[0]["regs"][10]) - 512) % (1 << 64)) if steps else word_json(0)
+    for k, e in enumerate(body):
         if e["e"] == "step":
             out.append({"e": "step", "pc": e["pc"], "depth": e["depth"], "regs": e["regs"]})
-        else:
-            out.append({"e": "helper", "id": e["id"], "args": e["args"], "ret": e["ret"]})
+        elif e["e"] == "helper":
+            # what the helper wrote (Machine!ExecCallHelper, hr.wr): the recorder gives the image of
+            # each region after the call; whole-region writes say the same thing
+            wr = []
+            if e["memchg"]:
+                after = body[k + 1]
+                for base, img in ((b["mem_base"], after["mem"]), (b["mbuff_base"], after["mbuff"]), (stack_base, after["stack"])):
+                    if img:
+                        wr.append({"addr": base, "bytes": img})
+            out.append({"e": "helper", "id": e["id"], "args": e["args"], "ret": e["ret"], "wr": wr})
     skipped = {"k": "skipped", "val": word_json(0), "pkt": [], "mbuf": []}
     out.append({"e": "end", "k": end["k"], "pkt": end["mem"], "mbuf": end["mbuff"], "allow": [],
                 "class": err_class(end["msg"]) if end["k"] == "err" else "", "msg": end["msg"], "val": end["val"],
